@@ -19,21 +19,16 @@ Definition g_occs (flv slv : Z) (reg : loc) (en : env) (r : role) (gl : loc) (x 
   [mkS gl name_G (resolve en name_G) RRead flv slv reg false [] en;
    mkS xl x (BGlobal x) r flv slv reg false [] en].
 
-(* class B1 in the wide fragment.  LuaScope.tag_local_init exempts a use of n inside the initialiser of `local n = e`
-   when e is a name / call / function expression, because IsCorrectPosition then tests containment in e's Loc.  That
-   Loc covers the uses only for the call shape of the narrow fragment, `f(args)` with a plain name f: the Loc of a
-   call with any other prefix (`a.b(n)`, `f(n)(n)`, `o:m(n)`) starts at its last segment (property C04, refuted class
-   "call Loc"), so the uses in front are not protected.  Conservative: such initialisers protect nothing. *)
-Definition simple_init (e : exp) : bool :=
-  match e with
-  | ECall (EName _ _) None _ _ => true
-  | ECall _ _ _ _ => false
-  | _ => true
-  end.
-
+(* class B1 in the wide fragment (since fixes/C05-own-initialiser.diff).  The server hides the variables of a `local`
+   statement from every position of its initialiser list (VarInfo.InitLoc) - EXCEPT that the variable n_i stays
+   visible inside its own initialiser e_i when e_i is a table constructor (VarInfo.InitTableLoc: key completion looks
+   the variable up from inside the constructor, test TestCompleteTableKey).  A use of n_i in there, `local t = {t}`,
+   still resolves to the new variable instead of the outer one: the only shape that keeps tag CB1. *)
 Definition tag_local_init_w (en : env) (ns : list (list N)) (i : nat) (e : exp) (os : list socc) : list socc :=
-  if simple_init e then tag_local_init en ns i e os
-  else tag_if (fun o => outer_use en o && name_in (s_name o) ns) CB1 os.
+  match e with
+  | ETable _ _ _ => tag_if (fun o => outer_use en o && Nat.ltb i (length ns) && beq_bytes (nth i ns []) (s_name o)) CB1 os
+  | _ => tag_local_init en ns i e os
+  end.
 
 Fixpoint bw_exp (flv slv : Z) (reg : loc) (e : exp) (en : env) {struct e} : list socc :=
   match e with
@@ -268,6 +263,45 @@ with strs_block (b : block) {struct b} : list (list N * loc) :=
   match b with
   | Block ss ret _ => flat_map strs_stat ss ++ match ret with Some es => flat_map strs_exp es | None => [] end
   end.
+
+(* ------------------------------------------------------------------ the initialiser regions of the `local` statements
+   (VarInfo.InitLoc, fixes/C05-own-initialiser.diff) with the names they hide.  Loc end columns are exclusive but
+   IsContainLoc compares them inclusively, so that the cursor at the END of an identifier that is the last token of
+   the statement is still inside.  The price: an identifier that starts RIGHT at the end of the statement
+   (`local c = #{}c()`, no blank in between) is inside as well when the cursor stands on its first column - a name of
+   the statement is not found there (class B1_adjacent_local_end, `after_local`). *)
+Fixpoint lends_exp (e : exp) {struct e} : list (loc * list (list N)) :=
+  match e with
+  | EUnop _ e1 _ | EParens e1 _ => lends_exp e1
+  | EBinop _ e1 e2 _ | EIndex e1 e2 _ => lends_exp e1 ++ lends_exp e2
+  | ECall p _ args _ => lends_exp p ++ flat_map lends_exp args
+  | ETable ks vs _ =>
+    flat_map (fun k => match k with Some k' => lends_exp k' | None => [] end) ks ++ flat_map lends_exp vs
+  | EFunc _ _ _ _ b _ _ _ => lends_block b
+  | _ => []
+  end
+with lends_stat (s : stat) {struct s} : list (loc * list (list N)) :=
+  match s with
+  | SBreak | SLabel _ _ | SGoto _ _ => []
+  | SDo b _ => lends_block b
+  | SCall e => lends_exp e
+  | SIf es bs _ => flat_map lends_exp es ++ flat_map lends_block bs
+  | SWhile e b _ => lends_exp e ++ lends_block b
+  | SRepeat b e _ => lends_block b ++ lends_exp e
+  | SForNum _ _ e1 e2 e3 b _ => lends_exp e1 ++ lends_exp e2 ++ lends_exp e3 ++ lends_block b
+  | SForIn _ _ es b _ => flat_map lends_exp es ++ lends_block b
+  | SAssign vars es _ => flat_map lends_exp vars ++ flat_map lends_exp es
+  | SLocal ns ls _ es l =>
+    (match init_loc ns ls es l with Some il => [(il, ns)] | None => [] end) ++ flat_map lends_exp es
+  | SLocalFunc _ _ f _ => lends_exp f
+  end
+with lends_block (b : block) {struct b} : list (loc * list (list N)) :=
+  match b with
+  | Block ss ret _ => flat_map lends_stat ss ++ match ret with Some es => flat_map lends_exp es | None => [] end
+  end.
+
+Definition after_local (les : list (loc * list (list N))) (name : list N) (line col : Z) : bool :=
+  existsb (fun x => name_in name (snd x) && (el (fst x) =? line) && (ec (fst x) =? col)) les.
 
 Definition near_str (strs : list (list N * loc)) (name : list N) (line col : Z) : bool :=
   existsb (fun x => beq_bytes (fst x) name && (sl (snd x) =? line) && (el (snd x) =? line)
